@@ -101,7 +101,81 @@ def extra_check(r):
             body = "" if body == "-" else body
             if "!InvalidData" not in a or not hx(want).startswith(body) and body:
                 return ("value", "forbidden sequence not reported, or bytes past it delivered")
+    if p[0] == "rbsp" and (p[1].startswith("nal:c") or p[1].startswith("raw:")):
+        # any history on a complete input: what was handed over, and every window fill_buf showed, lies on the reference
+        # unescape of the input (on its clean prefix when the input is invalid) - the statement of C02_stream_history
+        raw = bytes.fromhex(p[1].split(":", 2)[2].replace("/", "").replace("-", "")) if p[1].startswith("nal:") else \
+            (bytes.fromhex(p[1][4:]) if p[1][4:] != "-" else b"")
+        skip = int(p[2])
+        want, ok = unescape(raw[skip:])
+        ref = hx(want) if want else ""
+        delivered, window = "", ""
+        for t in r["dev"].split():
+            if t.startswith("f:"):
+                window = "" if t[2:] == "-" else t[2:]
+                if not ref[len(delivered):].startswith(window):
+                    return ("value", "fill_buf showed bytes that are not the next bytes of the unescaped payload")
+            elif t.startswith("c") and t[1:].isdigit():
+                k = 2 * int(t[1:])
+                delivered += window[:k]
+                window = window[k:]
+            elif t.startswith("r:") or t.startswith("e:"):
+                body = t[2:].split("!")[0]
+                delivered += "" if body == "-" else body
+                window = ""
+            elif t == "E:InvalidData" and ok:
+                return ("value", "InvalidData reported on a payload without forbidden sequences")
+            elif t == "E:WouldBlock":
+                return ("value", "WouldBlock reported on a complete input")
+        if not ref.startswith(delivered):
+            return ("value", "the bytes handed over are not a prefix of the unescaped payload")
     return None
+
+
+def _history(ans):
+    """property-level reading of an `rbsp` answer: (delivered bytes hex, set of error kinds, drained to the end?)"""
+    delivered, window, errs, drained = "", "", [], False
+    for t in ans.split():
+        if t.startswith("f:"):
+            window = "" if t[2:] == "-" else t[2:]
+        elif t.startswith("c") and t[1:].isdigit():
+            k = 2 * int(t[1:])
+            delivered += window[:k]
+            window = window[k:]
+        elif t.startswith("r:"):
+            delivered += "" if t[2:] == "-" else t[2:]
+            window = ""
+        elif t.startswith("e:"):
+            body, _, err = t[2:].partition("!")
+            delivered += "" if body == "-" else body
+            drained = True
+            if err:
+                errs.append(err)
+        elif t.startswith("E:"):
+            errs.append(t[2:])
+    return delivered, sorted(set(errs)), drained
+
+
+def agree(case, a, m):
+    """C02 speaks about the bytes delivered and how the stream ends, not about how many bytes one fill_buf call shows
+    (the size of the internal examination window): two `rbsp` histories agree when the delivered byte strings are
+    prefix-comparable (equal when both drained to the end) and the same kinds of error occurred."""
+    if not case.startswith("rbsp "):
+        return a == m
+    da, ea, fa = _history(a)
+    dm, em, fm = _history(m)
+    if fa and fm:
+        if ea != em:
+            return False
+        if "InvalidData" in ea:
+            # how much of the clean prefix is handed over before the error is reported depends on the examination window;
+            # the property only demands that nothing past the offending position is delivered (checked by extra_check)
+            return da.startswith(dm) or dm.startswith(da)
+        return da == dm
+    # a history that stops before the end: one side may simply have got further with the same calls
+    if not (set(ea) <= set(em) or set(em) <= set(ea)):
+        return False
+    return da.startswith(dm) or dm.startswith(da)
 
 
 def classify(r):
